@@ -125,4 +125,5 @@ class C12(Check):
 
 
 def main(tier, seed, replay=None):
-    return C12().main(tier, seed, replay)
+    from harness import densex
+    return densex.extend(C12, densex.D12())().main(tier, seed, replay)
